@@ -34,8 +34,9 @@ def campaign(ck, seconds=None):
     shutil.rmtree(corpus, ignore_errors=True)
     os.makedirs(corpus)
     log = os.path.join(common.WORK, f"fuzz-{ck.seed}.log")
-    if os.path.exists(log):
-        os.unlink(log)
+    import glob
+    for old_log in glob.glob(log + ".*"):
+        os.unlink(old_log)
     env["O2O_FUZZ_LOG"] = log
     try:
         p = subprocess.run(["cargo", "+nightly", "fuzz", "run", "--fuzz-dir", "fuzz", "--target-dir", tgt, "derive", corpus, "--",
@@ -54,10 +55,12 @@ def campaign(ck, seconds=None):
         ck.violation("fuzz|process_crash_or_timeout", dict(artifact=c, note="libFuzzer reported a crash / timeout / oom outside catch_unwind"))
     n = 0
     sigs = {}
-    if os.path.exists(log):
-        for line in open(log, errors="replace"):
+    malformed = 0
+    for lf in glob.glob(log + ".*"):
+        for line in open(lf, errors="replace"):
             parts = line.rstrip("\n").split("\t")
-            if len(parts) < 3:
+            if len(parts) < 3 or not re.match(r".+:\d+$", parts[1]):
+                malformed += 1
                 continue
             n += 1
             o = {"msg": parts[0], "loc": parts[1], "func": ""}
@@ -67,6 +70,8 @@ def campaign(ck, seconds=None):
     ck.count(max(execs, n))
     for s in sigs:
         ck.cell(["fuzz", s])
-    ck.extra["fuzz_campaign"] = {"seconds": seconds, "forks": common.NCPU, "executions_reported": execs, "caught_unwinds": n, "distinct_signatures": sigs, "corpus_files": len(os.listdir(corpus))}
+    for lf in glob.glob(log + ".*"):
+        os.unlink(lf)
+    ck.extra["fuzz_campaign"] = {"malformed_log_lines": malformed, "seconds": seconds, "forks": common.NCPU, "executions_reported": execs, "caught_unwinds": n, "distinct_signatures": sigs, "corpus_files": len(os.listdir(corpus))}
     shutil.rmtree(corpus, ignore_errors=True)
     shutil.rmtree(os.path.join(proj, "fuzz/artifacts"), ignore_errors=True)
